@@ -315,6 +315,9 @@ type FaultInjector struct {
 	Calls int
 	// Taken lists the deviations taken (for evidence).
 	Taken []string
+	// NoCrash restricts outcomes to errors (for code that issues API calls
+	// from worker goroutines, where a crash cannot be unwound).
+	NoCrash bool
 }
 
 var writeOutcomes = []simkube.Outcome{simkube.OK, simkube.ErrBefore, simkube.Conflict, simkube.ErrAfter, simkube.CrashBefore, simkube.CrashAfter}
@@ -330,11 +333,17 @@ func (f *FaultInjector) Decide(c simkube.Call) simkube.Outcome {
 	}
 	f.Calls++
 	outs := writeOutcomes
+	if f.NoCrash {
+		outs = writeOutcomes[:4]
+	}
 	if !c.Write {
 		if !f.Reads {
 			return simkube.OK
 		}
 		outs = readOutcomes
+		if f.NoCrash {
+			outs = readOutcomes[:2]
+		}
 	}
 	i := f.Run.Choose(len(outs), "api:"+c.String())
 	if i != 0 {
